@@ -5,7 +5,8 @@ CONSTANTS MaxVars
 RECURSIVE Perms(_)
 Perms(S) == IF S = {} THEN {<<>>} ELSE UNION {{<<x>> \o p : p \in Perms(S \ {x})} : x \in S}
 Probes == << <<<<1, 2>>, <<3, 2>>, <<2, 1>>, <<5, 4>>>>,          \* inside every support
-             <<<<1, 2>>, <<-1, 2>>, <<9, 1>>, <<5, 4>>>> >>         \* coordinate 2 negative, coordinate 3 beyond its uniform box
+             <<<<1, 2>>, <<-1, 2>>, <<9, 1>>, <<5, 4>>>>,           \* coordinate 2 negative, coordinate 3 beyond its uniform box
+             <<<<1, 1>>, <<2, 1>>, <<3, 1>>, <<1, 1>>>> >>          \* whole numbers (also handed over as an integer array)
 VARIABLES layout, pi, out
 \* layouts: number of variables n, an assignment of variables to at most 3 slots (surjective onto 1..m), an order inside each slot,
 \* a type per slot, and the order of the slots in the list handed to JointPrior
